@@ -279,4 +279,23 @@ def extra_cases(tier, seed):
                                 "lattice": False, "far": False},
                         "prows": {"p": [[0.4]]}, "fix": ["p"], "two_stage": False, "extra_name": extra, "n": 9,
                         "rng": seed * 100 + i})
+    # transforms with every combination of constant / parameter-dependent angle, pivot and shift, one and two
+    # variables, evaluated completely and only partly (p fixed, q stays a parameter)
+    A2 = lambda base, a, b: {"k": "affine2", "var": "p", "var2": "q", "v0": list(base), "V1": [[x] for x in a],      # noqa: E731
+                             "V2": [[x, 0.0] for x in b]}
+    sq = {"t": "par", "var": "x", "o": C(0.5, 0.2), "c1": C(1.7, 0.4), "c2": C(0.3, 1.1)}
+    sqp = {"t": "par", "var": "x", "o": A1([0.5, 0.2], [0.4, 0.0]), "c1": A1([1.7, 0.4], [0.4, 0.0]), "c2": A1([0.3, 1.1], [0.4, 0.0])}
+    j = 0
+    for inner in (sq, sqp):
+        for angle in (A1([0.3], [1.4]), A2([0.3], [1.4], [0.8])):
+            for around in (None, C(1.5, -0.7), A1([1.5, -0.7], [0.3, 0.6])):
+                for form in ("angles", "matrix_fn"):
+                    R = {"t": "rotate", "a": inner, "angle": angle, "around": around, "form": form}
+                    for E in (R, {"t": "boundary", "a": R}, {"t": "translate", "a": R, "v": A1([0.4, -0.2], [0.0, 1.0])}):
+                        j += 1
+                        two = angle["k"] == "affine2"
+                        out.append({"dom": {"E": E, "kind": "boundary" if E["t"] == "boundary" else "interior",
+                                            "pvars": ["p", "q"] if two else ["p"], "lattice": False, "far": False},
+                                    "prows": {"p": [[0.6]], "q": [[0.3, 0.9]]} if two else {"p": [[0.6]]},
+                                    "fix": ["p"], "two_stage": False, "extra_name": j % 2 == 0, "n": 9, "rng": seed * 100 + 20 + j})
     return out
